@@ -4,7 +4,8 @@ Classes (DESIGN 4.4): element map (strided region writes), counter (x' = x + c),
 last-value (x' independent of carried state), recurrence (x' = g(x, input_i)).
 Anything else raises Undecided.
 """
-from .lin import Lin, lin, ZERO, ONE, neg_cond
+from .lin import Lin, lin, ZERO, ONE, neg_cond, Facts
+Facts_EMPTY = Facts()
 from . import terms as T
 from .terms import Undecided
 from .interp import Target, vbytes, vint, vsize
@@ -299,6 +300,21 @@ def summarise_call_loop(ip, st, fr, N, runner):
     return _summarise_core(ip, st, fr, None, lin(N), T.fresh("$i"), {}, None, None, runner, True)
 
 
+def _sized_ref_local(fr, loc):
+    """is loc a local of this frame declared as a reference to a SIZED byte type (not a slice)?"""
+    cell, fpath = loc
+    if fpath or cell[0] != "L" or len(cell) < 3 or cell[1] != fr.id:
+        return False
+    try:
+        t = fr.crate.types[fr.body["locals"][cell[2]]["ty"]]
+    except (IndexError, KeyError, TypeError):
+        return False
+    if t["k"] != "ref":
+        return False
+    inner = fr.crate.types[t["inner"]]
+    return inner["k"] in ("adt", "array", "alias") and not inner.get("adt", "").endswith("InOutBuf")
+
+
 def _discover_affine(ip, st, fr, H, N, var, region, cont, runner):
     """{loc: affine description} of the sizes / slice references written in the loop body whose new
     value is the old one plus a constant (independent of the index and of every other carried value)."""
@@ -316,11 +332,31 @@ def _discover_affine(ip, st, fr, H, N, var, region, cont, runner):
     ph = {}
     syms = {}
     iters = {}
+    refseq = {}
     for loc in W:
         try:
             pv = ranged_ref(ip, st, ip.load(st, Target(loc[0], loc[1]), log=False))
         except Undecided:
             continue
+        if pv[0] == "ref" and _sized_ref_local(fr, loc):
+            # a reference to a fixed-size block that the body re-points (`prev = ct`): if what it is
+            # left pointing at is a function g(v) of the index alone, its value at the start of
+            # iteration v is g(v-1) -- provided the pre-loop value is g(-1), else peel iteration 0
+            vals = []
+            for s1 in outsA:
+                try:
+                    vals.append(ip.load(s1, Target(loc[0], loc[1]), log=False))
+                except Undecided:
+                    vals.append(None)
+            gA = vals[0] if vals and all(x is not None and veq(x, vals[0], s1.F) for x in vals) else None
+            if gA is not None and gA[0] == "ref" and gA[1].path and gA[1].path[-1][0] == "br" and not veq(gA, pv, st.F):
+                names_ = value_names(gA)
+                if var in names_ and not any(nm.startswith("$") and nm != var for nm in names_):
+                    if veq(vsub(gA, {}, {var: lin(-1)}, st.F), pv, st.F):
+                        refseq[loc] = ("refseq", gA, var)
+                        continue
+                    if any(loc[0] in (s_.rbw or ()) for s_ in outsA):
+                        raise PeelFirst("reference %r is re-pointed inside the loop" % (loc,))
         if pv[0] == "size":
             nm = T.fresh("$a")
             ph[loc] = vsize(Lin.sym(nm))
@@ -342,7 +378,7 @@ def _discover_affine(ip, st, fr, H, N, var, region, cont, runner):
             ph[loc] = ("iter", "win", inner, lo0 + Lin.sym(nm), cnt0 - Lin.sym(nm))
             iters[loc] = (nm, inner, lo0, cnt0)
     if not ph:
-        return {}
+        return dict(refseq)
     # candidate invariants of the placeholders (verified from the strides below): a size stays
     # non-negative; a slice variable is consumed from the front (start >= original start, same end)
     sG = st.fork()
@@ -364,7 +400,7 @@ def _discover_affine(ip, st, fr, H, N, var, region, cont, runner):
     try:
         outs, _, _, _ = run_iteration(ip, sG, fr, H, var, N, dict(ph), region, cont, runner)
     except Undecided:
-        return {}
+        return dict(refseq)
     iter_aff = {}
     for loc, (nm, inner, lo0, cnt0) in iters.items():
         vals = set()
@@ -375,12 +411,12 @@ def _discover_affine(ip, st, fr, H, N, var, region, cont, runner):
             else:
                 vals.add(None)
         if len(vals) != 1 or None in vals:
-            return {}
+            return dict(refseq)
         c_lo, c_cnt = vals.pop()
         if not c_lo.is_const() or c_lo.c != 1 or (c_lo + c_cnt) != ZERO:
-            return {}      # only one step per iteration is within the guess made above
+            return dict(refseq)      # only one step per iteration is within the guess made above
         if not st.F.prove_ge(cnt0 - N):
-            return {}
+            return dict(refseq)
         iter_aff[loc] = ("iter", inner, lo0, cnt0, c_lo)
     steps = {}
     for nm, (loc, which, orig) in syms.items():
@@ -407,7 +443,7 @@ def _discover_affine(ip, st, fr, H, N, var, region, cont, runner):
             s1_, s2_ = steps[(loc, 1)][1], steps[(loc, 2)][1]
             if st.F.prove_ge(s1_) and (s1_ + s2_) == ZERO:
                 continue
-        return {}      # the assumed shape of a slice variable is not an invariant: no closed forms
+        return dict(refseq)      # the assumed shape of a slice variable is not an invariant: no closed forms
     affine = {}
     for loc, pv in ph.items():
         if pv[0] == "size" and (loc, 0) in steps:
@@ -418,6 +454,7 @@ def _discover_affine(ip, st, fr, H, N, var, region, cont, runner):
             base = ranged_ref(ip, st, ip.load(st, Target(loc[0], loc[1]), log=False))[1]
             affine[loc] = ("ref", base, steps[(loc, 1)], steps[(loc, 2)])
     affine.update(iter_aff)
+    affine.update(refseq)
     return affine
 
 
@@ -467,6 +504,7 @@ def _summarise_core(ip, st, fr, H, N, var, affine, region, cont, runner, is_iter
     ph = {}
     phname = {}
     refph = {}
+    sized_eqs = []
     pre = {}
     for loc in carried:
         cell, fpath = loc
@@ -495,9 +533,17 @@ def _summarise_core(ip, st, fr, H, N, var, affine, region, cont, runner, is_iter
             tg = pv[1]
             ph[loc] = ("ref", Target(tg.cell, tg.path[:-1] + (("br", Lin.sym(n1), Lin.sym(n2)),)))
             refph[loc] = (n1, n2)
+            if _sized_ref_local(fr, loc):
+                # `&Array<..>` / `&[u8; N]`: whatever it is re-pointed to has the same length
+                sized_eqs.append(Lin.sym(n2) - tg.path[-1][2])
     ph2 = dict(ph)
     ph2.update(fixed)
-    outs, c0, o0, e0 = run_iteration(ip, st, fr, H, var, N, ph2, region, cont, runner)
+    stB = st
+    if sized_eqs:
+        stB = st.fork()
+        for e_ in sized_eqs:
+            stB.F.add_eq(e_)
+    outs, c0, o0, e0 = run_iteration(ip, stB, fr, H, var, N, ph2, region, cont, runner)
     Fi = outs[0].F.copy() if len(outs) == 1 else st.F.copy()
     v = Lin.sym(var)
     if len(outs) != 1:
@@ -631,6 +677,18 @@ def _summarise_core(ip, st, fr, H, N, var, affine, region, cont, runner, is_iter
                 if veq(gv, pre[loc], Fi):
                     V[loc] = pre[loc]
                     final[loc] = pre[loc]
+                elif gv[0] == "ref" and pre[loc][0] == "ref":
+                    # a reference re-pointed in every iteration (`prev = ct`): its value at the start of
+                    # iteration v is what iteration v-1 left, provided the pre-loop value fits that
+                    # pattern (g(-1) == pre); otherwise the first iteration has to be peeled off
+                    if veq(vsub(gv, {}, {var: lin(-1)}, Fi), pre[loc], st.F):
+                        V[loc] = vsub(gv, {}, {var: v - 1}, Fi)
+                        final[loc] = vsub(gv, {}, {var: N - 1}, st.F)
+                    elif any(loc[0] in (s_.rbw or ()) for s_ in outs):
+                        raise PeelFirst("reference %r is re-pointed inside the loop" % (loc,))
+                    else:
+                        V[loc] = ("nonrep", loc)
+                        final[loc] = vsub(gv, {}, {var: N - 1}, st.F) if n_ge1 else ("unknown", "loop temporary")
                 else:
                     prev = vsub(gv, {}, {var: v - 1}, Fi)
                     if gv[0] == "bytes" and pre[loc][0] == "bytes":
@@ -957,6 +1015,10 @@ def affine_value(a, j):
     if a[0] == "iter":
         _, inner, lo0, cnt0, c = a
         return ("iter", "win", inner, lo0 + c * j, cnt0 - c * j)
+    if a[0] == "refseq":
+        # value at the start of iteration j = what iteration j-1 left (g(j-1)); also the value after
+        # the loop for j = N
+        return vsub(a[1], {}, {a[2]: lin(j) - 1}, Facts_EMPTY)
     base = a[1]
     (lo0, s1), (ln0, s2) = a[2], a[3]
     return ("ref", Target(base.cell, base.path[:-1] + (("br", lo0 + s1 * j, ln0 + s2 * j),)))
